@@ -153,6 +153,14 @@ func buildRequest(c Case, r Req, full bool) (*http.Request, middleware.RoutePara
 	var req *http.Request
 	if body != nil {
 		req = httptest.NewRequest(http.MethodPost, target, body)
+		if r.UpperCT {
+			// the media type in capitals, the parameters (a boundary is case-sensitive) as they are
+			if i := strings.IndexByte(ctype, ';'); i >= 0 {
+				ctype = strings.ToUpper(ctype[:1]) + ctype[1:strings.IndexByte(ctype, '/')+1] + strings.ToUpper(ctype[strings.IndexByte(ctype, '/')+1:i]) + ctype[i:]
+			} else {
+				ctype = strings.ToUpper(ctype[:1]) + ctype[1:strings.IndexByte(ctype, '/')+1] + strings.ToUpper(ctype[strings.IndexByte(ctype, '/')+1:])
+			}
+		}
 		req.Header.Set("Content-Type", ctype)
 	} else {
 		req = httptest.NewRequest(http.MethodPost, target, nil)
@@ -436,8 +444,15 @@ func CheckDirect(c Case) *kit.Violation {
 	structType := reflect.StructOf(fields)
 	var mapBinder, structBinder *middleware.UntypedRequestBinder
 	if v := kit.Guard("NewUntypedRequestBinder", func() {
-		mapBinder = middleware.NewUntypedRequestBinder(params, new(spec.Swagger), strfmt.Default)
-		structBinder = middleware.NewUntypedRequestBinder(params, new(spec.Swagger), strfmt.Default)
+		reg := strfmt.NewFormats()
+		if !c.LateFormat {
+			addColorFormat(reg)
+		}
+		mapBinder = middleware.NewUntypedRequestBinder(params, new(spec.Swagger), reg)
+		structBinder = middleware.NewUntypedRequestBinder(params, new(spec.Swagger), reg)
+		if c.LateFormat {
+			addColorFormat(reg)
+		}
 	}); v != nil {
 		return v
 	}
@@ -620,6 +635,9 @@ func CheckFull(c Case) *kit.Violation {
 			return
 		}
 		api := untyped.NewAPI(d)
+		if !c.LateFormat {
+			addColorFormat(api.Formats())
+		}
 		api.RegisterConsumer("application/x-www-form-urlencoded", runtime.DiscardConsumer)
 		api.RegisterConsumer("multipart/form-data", runtime.DiscardConsumer)
 		api.RegisterProducer("application/json", runtime.JSONProducer())
@@ -629,6 +647,9 @@ func CheckFull(c Case) *kit.Violation {
 			return map[string]string{"handler": "ran"}, nil
 		}))
 		handler = middleware.NewContext(d, api, nil).APIHandler(nil)
+		if c.LateFormat {
+			addColorFormat(api.Formats())
+		}
 	}); v != nil {
 		return kit.Failf("full stack: %s\ndescription: %s", v.Msg, raw)
 	}
